@@ -945,6 +945,16 @@ func (x *Exec) unop(st *State, t *ssa.UnOp) Val {
 			x.fail("load through %T", x.operand(st, t.X))
 		}
 		x.nilCheck(st, p, "load")
+		if p.Obj != nil && p.Obj.Global != nil {
+			gpk := x.w.ByPath[p.Obj.Global.Pkg.Pkg.Path()]
+			if mu, ok := gpk.Contracts.Guarded[p.Obj.Global.Name()]; ok {
+				held, _ := st.Ghost["held:"+gpk.Name+"."+mu].(*Term)
+				if held == nil {
+					held = x.o.False()
+				}
+				x.oblige("guarded", p.Obj.Global.Name(), []string{"C19.lock"}, p.Obj.Global.Name()+" is only read with "+mu+" held", st.Guard, held)
+			}
+		}
 		return x.readPtr(st, p)
 	case token.NOT:
 		return o.Not(x.operand(st, t.X).(*Term))
